@@ -294,6 +294,10 @@ def enumerate_cases(tier):
         for b in (range(5) if a <= 2 or a >= 6 else (0,)):
             out.append(_case(full if (a + b) % 2 else mini,
                              corrupt=[cor("ext", a, b, a + b)]))
+    for a in range(3):
+        for b in (5, 6):            # link inside the contour / trace group
+            for c in range(3):
+                out.append(_case(full, corrupt=[cor("ext", a, b, c)]))
     for a in range(4):
         for b in range(len(NONPOS_VALS)):
             out.append(_case(mini if b % 2 else full, corrupt=[cor("nonpos", a, b, b)]))
